@@ -246,6 +246,7 @@ macro_rules! dispatch {
             "C11" => $f(&props::c11::C11, $($args),*),
             "C12" => $f(&props::c12::C12, $($args),*),
             "C13" => $f(&props::c13::C13, $($args),*),
+            "C29" => $f(&props::c29::C29, $($args),*),
             o => { eprintln!("unknown property {}", o); std::process::exit(2) }
         }
     };
